@@ -11,9 +11,10 @@ Definition mapkey := (bytes * bytes)%type.       (* (directory, map name) *)
 Record world := World {
   files : gmap mapkey store;
   dbs : gmap N bytes;                            (* database handle -> directory *)
-  mids : gmap N (mapkey * ktype) }.              (* map handle -> files, type it was opened as *)
+  mids : gmap N (mapkey * ktype);                (* map handle -> files, type it was opened as *)
+  opened : gset mapkey }.                        (* maps whose files are currently open *)
 
-Definition world0 : world := World ∅ ∅ ∅.
+Definition world0 : world := World ∅ ∅ ∅ ∅.
 
 Inductive flavour := FIter | FIterMut | FIntoIter | FRefIntoIter | FMutIntoIter | FKeys | FValues.
 
@@ -28,7 +29,7 @@ Inductive op :=
 | OBulkGet (m : N) (ks : list bytes) | OBulkDel (m : N) (ks : list bytes)
 | OBulkPut (m : N) (kvs : list (bytes * bytes)) | OPutIter (m : N) (kvs : list (bytes * bytes))
 | OPutInt (m : N) (x : Z) (v : bytes) | OGetInt (m : N) (x : Z) | ODelInt (m : N) (x : Z) | OHasInt (m : N) (x : Z)
-| OSnap (dir : bytes).
+| OSnap (dir : bytes) | OCpDir (src dst : bytes).
 
 Inductive out :=
 | RUnit | RPanic (t : tag) | RErr | RFuel | RNoHandle
@@ -41,7 +42,10 @@ Inductive out :=
 Definition out_of_res {A} (r : res A) (f : A -> out) : out :=
   match r with Ok a => f a | Panic t => RPanic t | IoErr => RErr | OutOfFuel => RFuel end.
 
-Definition set_files (w : world) (fs : gmap mapkey store) : world := World fs (dbs w) (mids w).
+Definition set_files (w : world) (fs : gmap mapkey store) : world := World fs (dbs w) (mids w) (opened w).
+
+(** [dirty] is set when the files are opened *)
+Definition reopen (s : store) : store := Store (kt s) (hx s) (keyf s) (valf s) true (synced s).
 
 Definition of_int (t : ktype) (x : Z) : bytes :=
   match t with
@@ -56,10 +60,13 @@ Definition of_int (t : ktype) (x : Z) : bytes :=
 Definition open_map (w : world) (mk : mapkey) (t : ktype) (p : params) : res world :=
   match files w !! mk with
   | Some s =>
-    if bytes_eqb (sig_of (kt s)) (sig_of t) then Ok w else Panic BadSig
+    if bytes_eqb (sig_of (kt s)) (sig_of t) then
+      if bool_decide (mk ∈ opened w) then Ok w
+      else Ok (World (<[mk := reopen s]> (files w)) (dbs w) (mids w) ({[mk]} ∪ opened w))
+    else Panic BadSig
   | None =>
     let* n := buckets_of_param (p_buckets p) in
-    Ok (set_files w (<[mk := create t n]> (files w)))
+    Ok (World (<[mk := create t n]> (files w)) (dbs w) (mids w) ({[mk]} ∪ opened w))
   end.
 
 (** run [f] on the store behind map handle [m] *)
@@ -87,21 +94,21 @@ Definition handle_type (w : world) (m : N) : ktype :=
 (** are all handles gone?  then every buffer has been dropped, i.e. flushed *)
 Definition close_unreferenced (w : world) : world :=
   if bool_decide (dbs w = ∅) && bool_decide (mids w = ∅)
-  then set_files w (close <$> files w) else w.
+  then World (close <$> files w) (dbs w) (mids w) ∅ else w.
 
 Definition step (w : world) (o : op) : world * out :=
   match o with
-  | ODb d dir => (World (files w) (<[d := dir]> (dbs w)) (mids w), RUnit)
+  | ODb d dir => (World (files w) (<[d := dir]> (dbs w)) (mids w) (opened w), RUnit)
   | ODbClone nd d =>
     match dbs w !! d with
-    | Some dir => (World (files w) (<[nd := dir]> (dbs w)) (mids w), RUnit)
+    | Some dir => (World (files w) (<[nd := dir]> (dbs w)) (mids w) (opened w), RUnit)
     | None => (w, RNoHandle)
     end
   | OMap m d t name p =>
     match dbs w !! d with
     | Some dir =>
       match open_map w (dir, name) t p with
-      | Ok w' => (World (files w') (dbs w') (<[m := ((dir, name), t)]> (mids w')), RUnit)
+      | Ok w' => (World (files w') (dbs w') (<[m := ((dir, name), t)]> (mids w')) (opened w'), RUnit)
       | Panic tg => (w, RPanic tg)
       | IoErr => (w, RErr)
       | OutOfFuel => (w, RFuel)
@@ -110,12 +117,12 @@ Definition step (w : world) (o : op) : world * out :=
     end
   | OMapClone nm m =>
     match mids w !! m with
-    | Some h => (World (files w) (dbs w) (<[nm := h]> (mids w)), RUnit)
+    | Some h => (World (files w) (dbs w) (<[nm := h]> (mids w)) (opened w), RUnit)
     | None => (w, RNoHandle)
     end
-  | ODrop m => (close_unreferenced (World (files w) (dbs w) (delete m (mids w))), RUnit)
-  | ODropDb d => (close_unreferenced (World (files w) (delete d (dbs w)) (mids w)), RUnit)
-  | OCloseAll => (close_unreferenced (World (files w) ∅ ∅), RUnit)
+  | ODrop m => (close_unreferenced (World (files w) (dbs w) (delete m (mids w)) (opened w)), RUnit)
+  | ODropDb d => (close_unreferenced (World (files w) (delete d (dbs w)) (mids w) (opened w)), RUnit)
+  | OCloseAll => (close_unreferenced (World (files w) ∅ ∅ (opened w)), RUnit)
   | OPut m k v => with_map w m (fun mk s => upd w mk (put s k v))
   | OGet m k => with_map w m (fun mk s => (w, out_of_res (get s k) ROpt))
   | ODel m k =>
@@ -163,4 +170,12 @@ Definition step (w : world) (o : op) : world * out :=
                        if bytes_eqb (fst mk) dir then
                          Some (snd mk, if synced s then match render s with Ok r => Some r | _ => None end else None)
                        else None) (map_to_list (files w))))
+  | OCpDir src dst =>
+    (* a copy of the directory taken from outside: determinate for the maps whose disk image
+       equals the logical image (synced); the others are left out of the copy *)
+    let copies := omap (fun ms : mapkey * store =>
+                          let '(mk, s) := ms in
+                          if bytes_eqb (fst mk) src && synced s then Some ((dst, snd mk), close s) else None)
+                       (map_to_list (files w)) in
+    (set_files w (fold_right (fun c fs => <[fst c := snd c]> fs) (files w) copies), RUnit)
   end.
